@@ -370,8 +370,35 @@ func checkC14(c *Ctx) {
 
 	// ------------------------------------------------------------------ O1 / O2
 	// the drain: calls of HandleMessage in Send (incl. its closures) over the snapshot
+	// Send's own code: its literals and the package's functions it calls or defers (a deferred literal
+	// and a deferred named method are the same drain), not following the re-dispatch itself
+	drainRegion := WithAnon(b.send)
+	for i := 0; i < len(drainRegion) && i < 32; i++ {
+		for _, in := range instrsOf(drainRegion[i]) {
+			ci, ok := in.(ssa.CallInstruction)
+			if !ok {
+				continue
+			}
+			if _, isGo := in.(*ssa.Go); isGo {
+				continue
+			}
+			g := staticCallee(ci.Common())
+			if g == nil || g.Blocks == nil || pkgPathOf(g) != PkgMsg || g == b.send || g == b.maybeGC || g.Name() == "HandleMessage" || g.Name() == "initialize" {
+				continue
+			}
+			for _, h := range WithAnon(g) {
+				dup := false
+				for _, e := range drainRegion {
+					dup = dup || e == h
+				}
+				if !dup {
+					drainRegion = append(drainRegion, h)
+				}
+			}
+		}
+	}
 	var drains []ssa.CallInstruction
-	for _, fc := range b.forwardCalls(WithAnon(b.send)) {
+	for _, fc := range b.forwardCalls(drainRegion) {
 		drains = append(drains, fc)
 	}
 	if len(drains) == 0 {
@@ -405,7 +432,7 @@ func checkC14(c *Ctx) {
 			// deferred closure: lockset at the exit of Send — conservatively empty
 			held = false
 		}
-		c.Check(held, O2, FuncName(d.Parent()), "drain ordered against direct forwarding", m.Pos(d.Pos()), "drain runs under Box.lock (direct forwards take it too)",
+		c.Check(held, O2, FuncName(b.send), "drain ordered against direct forwarding", m.Pos(d.Pos()), "drain runs under Box.lock (direct forwards take it too)",
 			"the topic is marked started before the buffered messages have been handed over and the drain runs without a lock shared with the direct-forward path: a message of sender S that arrives during the drain is forwarded at once and overtakes older buffered messages of S (per-sender arrival order is not preserved)")
 	}
 	_ = fmt.Sprintf
